@@ -20,6 +20,7 @@
 package c07
 
 import (
+	"context"
 	"encoding/json"
 	"errors"
 	"fmt"
@@ -147,7 +148,11 @@ func runOnce(dir string, in *In) (obs Obs) {
 	r.Rec.Take()
 	do := func(id string) ReqObs {
 		t0 := time.Now()
-		res := r.Do(in.Ev, id)
+		// the caller's own, much longer deadline only keeps a runtime without per-plugin
+		// deadlines from hanging the campaign; such a request is over the wall-clock bound anyway
+		ctx, cancel := context.WithTimeout(context.Background(), 10*time.Second)
+		res := r.DoCtx(ctx, in.Ev, id)
+		cancel()
 		return ReqObs{Res: res, WallMs: time.Since(t0).Milliseconds(), Log: invs(r.Rec.Take())}
 	}
 	// all three requests run under the short request timeout (the deadline travels in the
